@@ -288,7 +288,7 @@ def c19c(ctx):
 @rule('C19.d', floor=4)
 def c19d(ctx):
     """shared rules, re-evaluated for this property"""
-    for prop, rules in (('C05', {'C05.c'}), ('C06', {'C06.c', 'C06.d'}), ('C08', {'C08.d'})):
+    for prop, rules in (('C05', {'C05.c', 'C05.j', 'C05.l'}), ('C06', {'C06.c', 'C06.d'}), ('C08', {'C08.d'})):
         sub = run_property(ctx.repo, prop, ctx.tier, only=rules)
         for e in sub.errors:
             raise Undecided('shared rule %s: %s' % e)
